@@ -114,8 +114,48 @@ M = {
  "C17-F": ("thread-local cache of parsed macro expansions keyed by the substituted body text and segment address", "two builds on one thread sharing a macro letter for letter whose body reads a symbol that differs"),
  "C18-E": ("records streamed through a BufWriter that is dropped without flush", "an output that opens but rejects writes, and a hex text below 8 KiB"),
  "C18-F": ("the verbose summary is printed before the files are written; integer percentages divide by the RAM size", "`-v` and a device without RAM (ATtiny11 ...)"),
+ # ---- round 4 (as round 3, plus: the ideas of rounds 1-3 were listed as taken) ----
+ "C01-G": ("pass 2 no longer walks data segments", "a `.set`, `.def` or `.undef` standing in `.dseg`, used by a later instruction (binding rules: C10's subject, caught there)"),
+ "C01-H": ("symbol names folded once per lookup; the alias lookup from the instruction encoder still passes the name as written", "a `.def` alias written with a capital letter where it is used (aliases: C10's subject, caught there)"),
+ "C02-G": ("EEPROM `.byte` sized by the absolute address (`resize(cur_address)`) in pass 2", "a `.byte` in an EEPROM block that does not start at address 0"),
+ "C02-H": ("`.device` predefines ramend, flashend, sram_start ... as built-in symbols, which are looked up before labels", "a `.device` line and a label named like one of them"),
+ "C03-G": ("`.db` strings sized in characters in pass 1, emitted as bytes in pass 2", "a `.db` string with a non-ASCII character between a branch and its label"),
+ "C03-H": ("`pc` refreshed only after an instruction, not after data", "a pc-relative operand in the first instruction after data in the code segment"),
+ "C04-G": ("the value of an expression-defined `.equ` is remembered after its first evaluation", "an operand written through an `.equ` over a `.set` variable, used before and after the variable changes to a value the field cannot hold"),
+ "C04-H": ("new reduced-core rows (ATtiny4/5/9/40); the one-word lds/sts bound is taken from the device's RAM extent", "`.device ATtiny40` and an lds/sts address in 0xc0..0x13f"),
+ "C05-G": ("upper-case radix prefixes accepted through a shared helper that also strips a prefix from the digits of a `$` literal", "a `$`-hex literal whose first two digits are `0b`"),
+ "C05-H": ("`.equ` binds known constants at its definition with a tree walker that also rewrites function names", "a constant named like a built-in function, above another `.equ` that calls that function and mentions a later label"),
+ "C06-G": ("pass 0 decides by a 'stand-in segment received items' flag whether an expansion continues the caller's segment", "data directives in a macro whose body begins with `.eseg`, called at address 0 of the code segment (macro expansion: C09's subject, caught there)"),
+ "C06-H": ("hex and binary literals parsed as u64 and cast to i64", "a literal of 2^63 or more in a narrower data directive"),
+ "C07-G": ("data records consisting only of 0xFF are left out of the HEX text", "a 16-byte-aligned run of 0xFF in either image"),
+ "C07-H": ("'atomic' write: scratch file named by the process id, then rename over the target", "two writer calls overlapping in time in one directory (and any target that must not be replaced, such as a device node)"),
+ "C08-G": ("new 'argument missing' error checked on the raw macro body, before its conditionals are evaluated", "a macro body whose unselected arm uses an argument the call does not pass (macro expansion: caught by C09 and C14)"),
+ "C08-H": ("multi-line `/* */` comments through a pre-pass over the whole file, before conditionals are skipped", "prose containing `/*` in an unselected arm"),
+ "C09-G": ("identifiers are rendered lower-cased when an argument is pasted into the body", "a capitalised name passed as argument and used as a name (`.ifdef @0`, `.define @0`, `.device @0`)"),
+ "C09-H": ("arguments substituted only up to the first `;` of a body line", "a `;` inside a character or string literal before a parameter on the same body line"),
+ "C10-G": ("`&&` / `||` stop at the left operand when it decides", "an undefined name on the side that does not decide"),
+ "C10-H": ("`.set` enters its name with a placeholder 0 before evaluating the value", "the first `.set` of a name whose value mentions that name"),
+ "C11-G": ("`.includepath` directories are normalised lexically; a `..` with nothing left to pop is dropped", "the main file named by a bare relative path and an `.includepath` that climbs above it"),
+ "C11-H": ("source files are read through `take(1 << 20)`", "an included file larger than 1 MiB"),
+ "C12-G": ("new range check at `.org` with `>=` against the memory size", "`.org` exactly at the capacity followed only by a label"),
+ "C12-H": ("`.csegsize` implemented for the AT94K; a value given before `.device` is applied to whatever device follows", "`.csegsize 16` before the `.device` line of another part"),
+ "C13-G": ("device gate rewritten per option with a wildcard arm that swallows NoElpmX", "`.device ATmega103` and `elpm Rd, Z(+)`"),
+ "C13-H": ("`.csegsize` rebuilds the AT94K's device record with an empty restriction set", "`.device AT94K`, a valid `.csegsize`, then an instruction the AT94K lacks"),
+ "C14-G": ("new 'parameter not passed' error that scans comments and strings of macro body lines", "a comment mentioning `@N` on a body line of a macro called with fewer arguments"),
+ "C14-H": ("mnemonic case folded into a 5-byte stack buffer", "`FMULSU` / `EICALL` written with an upper-case letter"),
+ "C15-G": ("`.def` / `.undef` / `.set` of data segments handled in a short-cut loop whose `?` drops the line", "such a fault standing in `.dseg`"),
+ "C15-H": ("friendlier syntax-error text with a 24-byte excerpt sliced by bytes", "a faulty line with a multi-byte character straddling byte 24 behind the failure point"),
+ "C16-G": ("the nesting pre-scan treats backslash-quote as an escaped quote, the grammar does not", "a string operand ending in a backslash, followed on the same line by a deeply nested operand"),
+ "C16-H": ("single-pass argument substitution that takes 'the next byte' after `@` with split_at(1)", "an `@` directly before a non-ASCII character on a body line of a macro called with arguments"),
+ "C17-G": ("include directories handed from parse_file to pass 0 through a thread-local that parse_str never clears", "a file build with an include directory, then a text build whose macro body includes a file found only there"),
+ "C17-H": ("repeated messages removed through a HashSet when any message occurs twice", "a build with a duplicated message and at least two distinct ones"),
+ "C18-G": ("relative `-o` / `-e` paths are resolved next to the source", "a relative `-o` and a source path with a directory part"),
+ "C18-H": ("the result of the EEPROM write overwrites the result of the flash write", "flash output unwritable, EEPROM output writable, both images non-empty"),
 }
-MATRIX = json.load(open(os.path.join(ROOT, "seeded", "matrix.json"))) if os.path.exists(os.path.join(ROOT, "seeded", "matrix.json")) else {}
+MATRIX = {}
+for mf in ("matrix.json", "matrix3.json", "matrix4.json"):
+    if os.path.exists(os.path.join(ROOT, "seeded", mf)):
+        MATRIX.update({k: v for k, v in json.load(open(os.path.join(ROOT, "seeded", mf))).items() if not k.startswith("_")})
 rows = []
 for sid in sorted(M):
     d = os.path.join(ROOT, "seeded", sid)
